@@ -22,6 +22,26 @@ def toS (n : Nat) (x : Nat) : Int :=
 /-- conversion of a signed value to a narrower signed type -/
 def toSI (n : Nat) (x : Int) : Int := toS n (toU n x)
 
+
+/-! ## The byte-level memory model of `tools/c2lean_wire.py` (Generated/TranslatedWire.lean) -/
+
+/-- object representation of an n-byte unsigned value on the (little-endian) host -/
+def le : Nat → Nat → List Nat
+  | 0, _ => []
+  | n + 1, v => (v % 256) :: le n (v / 256)
+
+/-- the value an n-byte object holds -/
+def unle : List Nat → Nat
+  | [] => 0
+  | b :: bs => b + 256 * unle bs
+
+/-- `n` bytes at offset `off` of a region -/
+def rd (l : List Nat) (off n : Nat) : List Nat := (l.drop off).take n
+
+/-- the region after the bytes `bs` were stored at offset `off` (a store past the end LENGTHENS the list: out-of-bounds
+    stores are not modelled, the equalities are stated for regions with room) -/
+def wr (l : List Nat) (off : Nat) (bs : List Nat) : List Nat := l.take off ++ bs ++ l.drop (off + bs.length)
+
 @[simp] theorem loopRange_empty {σ : Type} (a b : Nat) (f : Nat → σ → σ) (s : σ) (h : b ≤ a) : loopRange a b f s = s := by
   simp [loopRange, Nat.sub_eq_zero_of_le h]
 
